@@ -598,6 +598,12 @@ def rules(rep, m):
     else:
         r7.ok()
 
+    # R-C01-8 ------------------------------------------------------------
+    rs = rep.rule("R-C01-8", "the event queue delivers the event the comparator puts first: one round of the heap's sift loops keeps the heap order for every arrangement of "
+                  "children and every order of the tags involved (shared with R-C02-8)", floor=6)
+    from . import siftrules
+    siftrules.check_sifts(rep, rs, m)
+
 
 def _root_var(n):
     """Root variable (DeclRefExpr node) of an access path expression."""
@@ -636,7 +642,7 @@ def run(tier="quick"):
     rep.exhaustive = True
     rep.assumptions = ["sort keys are not NaN", "heap sift index arithmetic is not decided (structural part: C02)",
                        "user actions do not touch the event queue's storage directly"]
-    rep.not_decided = ["that the heap delivers the minimum (sift arithmetic)",
+    rep.not_decided = ["termination of the sift loops and the probe sequence of the hash map (one sift round is decided, R-C01-8)",
                        "pattern operations beyond predicate agreement and two-pass structure"]
     for m in models:
         rep.configs.append(m.config)
